@@ -213,7 +213,7 @@ func (mem *Mempool) addDelayTx(cache *delayTxCache, block *types.Block) {
 		}
 
 		// 区块内嵌的延时交易，入 cache 前先过黑名单，到期不会被再次投递
-		if berr := types.CheckTxBlockedAccountImmediate(tx); berr != nil {
+		if berr := checkDelayTxBlocked(tx); berr != nil {
 			mlog.Error("addDelayTx skip blocked account", "txHash", common.ToHex(tx.Hash()), "err", berr)
 			continue
 		}
@@ -336,7 +336,7 @@ func (mem *Mempool) eventAddDelayTx(msg *queue.Message) {
 	err := types.ErrInvalidParam
 	if delayTx, ok := msg.GetData().(*types.DelayTx); ok {
 		// 延时交易提交即拦（不经 checkTx），这里走 Immediate 深度判定
-		if berr := types.CheckTxBlockedAccountImmediate(delayTx.GetTx()); berr != nil {
+		if berr := checkDelayTxBlocked(delayTx.GetTx()); berr != nil {
 			mlog.Error("eventAddDelayTx blocked account", "txhash", common.ToHex(delayTx.GetTx().Hash()), "err", berr)
 			err = berr
 		} else {
@@ -350,4 +350,20 @@ func (mem *Mempool) eventAddDelayTx(msg *queue.Message) {
 		replyMsg.Data = &types.Reply{IsOk: true}
 	}
 	msg.Reply(replyMsg)
+}
+
+// checkDelayTxBlocked 延时交易入口的黑名单检查：交易本身，以及交易组展开后的每一笔成员，
+// 均走 checkTx 所用的 CheckTxBlockedAccountImmediate（组头之外的成员同样不能命中，
+// 否则到期经 mempool 重新投递时才会被 checkTxs 逐笔拦下）
+func checkDelayTxBlocked(tx *types.Transaction) error {
+	if err := types.CheckTxBlockedAccountImmediate(tx); err != nil {
+		return err
+	}
+	if tx == nil {
+		return nil
+	}
+	if group, err := tx.GetTxGroup(); err == nil && group != nil {
+		return types.CheckTxsBlockedAccountImmediate(group.GetTxs())
+	}
+	return nil
 }
